@@ -187,6 +187,11 @@ class GridMachine(BaseCheck):
                 if r.random() < 0.1:
                     o['bad_at'] = r.randrange(len(rs) + 1)
                     o['bad'] = r.randrange(len(NON_DICTS))
+                    if r.random() < 0.4:
+                        # ... and the source fails as well, after the item that must be refused: the refusal comes
+                        # first (a list never gets to see the later failure either)
+                        o['raise_at'] = len(rs) + 1
+                        o['as'] = 'gen'
                 elif r.random() < 0.08:
                     # the source of the rows fails part-way (a generator reading from a connection that drops): the
                     # rows handed over so far, or some of them, are in; what follows behaves like a list again
@@ -421,7 +426,7 @@ class GridMachine(BaseCheck):
                         model.extend(rs)
                     arg = seq if o.get('as') == 'list' else tuple(seq) if o.get('as') == 'tuple' else (x for x in seq)
                     if 'raise_at' in o:
-                        arg = failing_iter(seq)
+                        arg = failing_iter(seq)      # (with bad_at: seq holds the non-dict item, the failure comes after it)
                         stats['fault.row_source_fails_midway'] = stats.get('fault.row_source_fails_midway', 0) + 1
                     if op == 'extend':
                         g.extend(arg)
